@@ -131,6 +131,9 @@ def _install_fake_mpi(comm):
     sys.modules['mpi4py.MPI'] = M
 
 
+SPLIT_OPEN = os.environ.get('ESRSIM_SPLIT_OPEN', '1') == '1'
+
+
 def _install_fs_seam(comm, scratch, state):
     pkg_src = (scratch + '/pkg/esr/generation/', scratch + '/pkg/esr/fitting/', scratch + '/pkg/esr/plotting/')
     ls = len(scratch)
@@ -166,6 +169,22 @@ def _install_fs_seam(comm, scratch, state):
         if rel is not None:
             mode = args[1] if event == 'open' and len(args) > 1 else None
             comm.fs((event, rel, mode))
+            if SPLIT_OPEN and event == 'open' and isinstance(mode, str) and 'w' in mode:
+                # opening for writing truncates at once, the data arrive later: make that window a pre-emption point of its own.
+                # The truncation is performed here (the real open repeats it, idempotently) and the rank yields once more, so
+                # another rank may be scheduled while the shared file is empty - what a reader meets in a real run when it is
+                # not separated from the writer by a barrier.
+                state['on'] = False
+                try:
+                    fd = os.open(a0 if isinstance(a0, (str, bytes)) else str(a0), os.O_WRONLY | os.O_CREAT | os.O_TRUNC, 0o666)
+                    os.close(fd)
+                    done = True
+                except OSError:
+                    done = False
+                finally:
+                    state['on'] = True
+                if done:
+                    comm.fs(('truncated', rel, mode))
 
     sys.addaudithook(hook)
     import os.path as osp
